@@ -247,13 +247,18 @@ def check_property(mod, world, tier="quick", seed=0):
         rep.bump(EXIT_ENGINE)
     # second back end for unknowns
     by_backend = {"z3": {"count": 0, "secs": 0.0}, "cvc5": {"count": 0, "secs": 0.0}}
-    for ob in obligs:
-        if ob["status"] == "unknown" and ob.get("smt2"):
-            t0 = time.time()
-            ans = cvc5_decide(ob["smt2"])
-            ob["secs"] += time.time() - t0
+    unk = [ob for ob in obligs if ob["status"] == "unknown" and ob.get("smt2")]
+    if unk:
+        # all of them in parallel; at most 64 (a flood of unknowns is a path explosion, which the second solver will not cure)
+        from concurrent.futures import ThreadPoolExecutor
+        t0 = time.time()
+        with ThreadPoolExecutor(max_workers=16) as ex:
+            answers = list(ex.map(lambda ob: cvc5_decide(ob["smt2"]), unk[:64]))
+        for ob, ans in zip(unk[:64], answers):
+            ob["secs"] += (time.time() - t0) / max(1, len(answers))
             if ans != "unknown":
                 ob["status"], ob["backend"] = ans, "cvc5"
+    for ob in obligs:
         ob.pop("smt2", None)
         b = by_backend.setdefault(ob.get("backend", "z3"), {"count": 0, "secs": 0.0})
         b["count"] += 1
